@@ -495,6 +495,20 @@ func Restore(data []byte) (db sm.IStateMachine, panicked bool) {
 	return n, false
 }
 
+// RestoreInto installs a snapshot into an existing (possibly lagging) replica, as dragonboat does when a replica
+// falls behind: RecoverFromSnapshot is called on the live instance.
+func RestoreInto(db sm.IStateMachine, data []byte) (panicked bool) {
+	defer func() {
+		if r := recover(); r != nil {
+			panicked = true
+		}
+	}()
+	if err := db.RecoverFromSnapshot(bytes.NewReader(data), nil, nil); err != nil {
+		panic(err)
+	}
+	return false
+}
+
 // StatesLine is the canonical answer to the "states" op: availability of every
 // shard in the view, sorted by id.
 func StatesLine(db sm.IStateMachine, d *Dump) string {
